@@ -1,7 +1,7 @@
 #!/usr/bin/env python3
 """Runs every seeded change under /verif/seeded against the check of the property it breaks and
 prints a table: caught (exit 1) or MISSED. Quick tier unless --tier thorough. Never writes to
-/verif/evidence (tools/try_patch.py redirects output)."""
+/verif/evidence and never touches /repo's working tree (tools/try_patch_wt.py: scratch worktrees). --jobs N."""
 import glob, json, os, re, subprocess, sys
 tier = "thorough" if "--tier" in sys.argv and sys.argv[sys.argv.index("--tier") + 1] == "thorough" else "quick"
 only = [a for a in sys.argv[1:] if re.match(r"^C\d\d", a)]
@@ -13,14 +13,28 @@ for d in sorted(glob.glob("/verif/seeded/C??-agent*")):
 for f in sorted(glob.glob("/verif/seeded/hand/M*.diff")):
     m = re.match(r"M\d+_(C\d\d)_", os.path.basename(f))
     jobs.append(("hand/" + os.path.basename(f), f, m.group(1)))
-for name, patch, pid in jobs:
-    if only and pid not in only:
-        continue
-    p = subprocess.run(["python3", "/verif/tools/try_patch.py", patch, pid, "--tier", tier], capture_output=True, text=True)
-    first = (p.stdout.splitlines() or [""])[0]
+import concurrent.futures, queue
+njobs = int(sys.argv[sys.argv.index("--jobs") + 1]) if "--jobs" in sys.argv else 4
+slots = queue.Queue()
+for k in range(njobs):
+    slots.put(k)
+def work(job):
+    name, patch, pid = job
+    slot = slots.get()
+    try:
+        # scratch worktree + scratch copy of /verif: /repo's working tree is never touched
+        p = subprocess.run(["python3", "/verif/tools/try_patch_wt.py", patch, pid, "--tier", tier, "--slot", str(10 + slot)], capture_output=True, text=True)
+    finally:
+        slots.put(slot)
+    lines = [l for l in p.stdout.splitlines() if not l.startswith("WARNING")]
+    first = lines[0] if lines else p.stderr[-200:]
     ok = " exit=1 " in first
-    det = (p.stdout.splitlines()[1].strip()[:110] if ok and len(p.stdout.splitlines()) > 1 else first[:110])
-    print("%-34s %-4s %-7s %s" % (name, pid, "caught" if ok else "MISSED", det), flush=True)
-    rows.append(ok)
+    det = (lines[1].strip()[:110] if ok and len(lines) > 1 else first[:110])
+    return name, pid, ok, det
+jobs = [j for j in jobs if not only or j[2] in only]
+with concurrent.futures.ThreadPoolExecutor(max_workers=njobs) as ex:
+    for name, pid, ok, det in ex.map(work, jobs):
+        print("%-34s %-4s %-7s %s" % (name, pid, "caught" if ok else "MISSED", det), flush=True)
+        rows.append(ok)
 print("%d of %d caught" % (sum(rows), len(rows)))
 sys.exit(0 if all(rows) else 1)
